@@ -222,6 +222,10 @@ func (f *FrameHeader) readFrom(br *bufio.Reader) (int64, error) {
 		}
 
 		rn += int64(n)
+	} else {
+		// An empty frame has an empty payload, not whatever the frame that
+		// was read into this header before it left behind.
+		f.payload = f.payload[:0]
 	}
 
 	return rn, f.fr.Deserialize(f)
